@@ -411,6 +411,7 @@ pub fn run(ctx: &Ctx, rep: &mut Report) {
             2 => act(gen_action_kind(r.usize(SUPPORTED_ACTIONS), r)),
             _ => t(Test::Path(r.pick(NAME_POOL).to_string())),
         });
+        let e = if i % 4 == 0 { with_groups(&e, &mut r, 3) } else { e };
         let mut rr = r.clone();
         let recs = directed_records(&e, crate::sut::now_secs(), &mut rr, 4);
         check(&e, recs, false, &format!("tree:{}", i), rep, false);
@@ -439,6 +440,61 @@ pub fn run(ctx: &Ctx, rep: &mut Report) {
                 check(&parsed, recs, true, &format!("text:{}", i), rep, true);
             }
         }
+    });
+    // requests that a *string-encoded* registry key would merge: (P, case-insensitive) next to
+    // (P + flag spelling, case-sensitive), (file F, terminator) next to (F + terminator spelling, other
+    // terminator), and the prefix forms. All-run chains, so the run-time sharing count sees a merge even
+    // where no file name tells the two apart.
+    let decor = ["/i", ":i", "-i", "_i", "i", "|i", ",i", " i", "/true", ":true", ",true", "true", "1", ":1", "#t", " #t", "/ci", ":ci", "/I", "\\i", "\ti", "\u{1}i", "/false", ":0", "0", "/0", "\\0", "\\n", ":n", ":nul", "/None", ":None", "\n", ",Some('\\n')", "/\\0", "::", ""];
+    let n4 = ctx.pick(600, 40_000);
+    par_cases(ctx, "keyenc", n4, rep, |i, rep| {
+        let mut r = Rng::for_case(ctx.seed, "keyenc", i);
+        let p = r.pick(&["src", "a", "a*", "x.y", "Data", "q?"]).to_string();
+        let d = decor[(i as usize) % decor.len()];
+        let decorated = match r.below(4) {
+            0 => format!("{}{}", d.trim_start_matches(['/', ':', ',', '|', ' ', '-', '_']), p),
+            1 => format!("{}{}", d, p),
+            _ => format!("{}{}", p, d),
+        };
+        let path = r.chance(1, 2);
+        let mk = |s: String, ci: bool| t(match (path, ci) { (false, false) => Test::Name(s), (false, true) => Test::InsensitiveName(s), (true, false) => Test::Path(s), (true, true) => Test::InsensitivePath(s) });
+        let f = r.pick(&["out", "f1", "a"]).to_string();
+        let fdec = format!("{}{}", f, d);
+        let mut leaves = vec![];
+        let flip = r.chance(1, 2);
+        leaves.push(mk(p.clone(), !flip));
+        leaves.push(mk(decorated.clone(), flip));
+        if r.chance(1, 2) {
+            leaves.push(mk(p.clone(), flip));
+        }
+        if d != "" {
+            match r.below(4) {
+                0 => {
+                    leaves.push(act(Action::FilePrint(f.clone())));
+                    leaves.push(act(Action::FilePrintNull(fdec.clone())));
+                }
+                1 => {
+                    leaves.push(act(Action::FilePrintNull(f.clone())));
+                    leaves.push(act(Action::FilePrint(fdec.clone())));
+                }
+                2 => {
+                    leaves.push(act(Action::FilePrintFormatted(f.clone(), vec![FormatElement::Field(FormatField::Basename)])));
+                    leaves.push(act(Action::FilePrint(fdec.clone())));
+                    leaves.push(act(Action::FilePrintNull(f.clone())));
+                }
+                _ => {}
+            }
+        }
+        r.shuffle(&mut leaves);
+        let e = all_run_chain(leaves);
+        let mut recs = vec![];
+        for (j, v) in [p.clone(), decorated.clone(), p.to_uppercase(), decorated.to_uppercase(), "zz".to_string()].iter().enumerate() {
+            let mut rec = FileRecord::base(j as u64);
+            rec.relpath = v.clone();
+            recs.push(rec);
+        }
+        rep.count("key_encoding_collision_candidates");
+        check(&e, recs, true, &format!("keyenc:{}", i), rep, true);
     });
     if ctx.only.is_none() {
         rep.floor("sharing counts observed at run time", rep.get("sharing_counts_checked") > 100);
